@@ -12,6 +12,8 @@ Nothing from /repo is imported or executed: sources are read as text and parsed.
 from __future__ import annotations
 
 import ast
+import hashlib
+import pickle
 import io
 import os
 import re
@@ -167,6 +169,60 @@ def pyx_to_py(text: str, fname: str = '<pyx>') -> Tuple[str, PyxInfo]:
     return '\n'.join(out), info
 
 
+def _digest_of_normalizer() -> str:
+    h = hashlib.sha1()
+    here = os.path.dirname(os.path.abspath(__file__))
+    for fn in ('normalize.py', 'frontend.py'):
+        try:
+            h.update(open(os.path.join(here, fn), 'rb').read())
+        except OSError:
+            pass
+    return h.hexdigest()
+
+
+_NORMALIZE_DIGEST = _digest_of_normalizer()
+
+
+def _cache_dir() -> Optional[str]:
+    d = os.environ.get('PYSPIKE_SA_CACHE')
+    if d == 'off':
+        return None
+    if not d:
+        import tempfile
+        d = os.path.join(tempfile.gettempdir(), f"pyspike_sa_normal_forms_{os.getuid()}")
+    try:
+        os.makedirs(d, exist_ok=True)
+        return d
+    except OSError:
+        return None
+
+
+def _cache_get(key: str):
+    d = _cache_dir()
+    if not d:
+        return None
+    p = os.path.join(d, key + '.pickle')
+    try:
+        with open(p, 'rb') as fh:
+            return pickle.load(fh)
+    except Exception:
+        return None
+
+
+def _cache_put(key: str, tree):
+    d = _cache_dir()
+    if not d:
+        return
+    p = os.path.join(d, key + '.pickle')
+    try:
+        tmp = p + f".{os.getpid()}.tmp"
+        with open(tmp, 'wb') as fh:
+            pickle.dump(tree, fh, protocol=pickle.HIGHEST_PROTOCOL)
+        os.replace(tmp, p)
+    except Exception:
+        pass
+
+
 @dataclass
 class FuncInfo:
     module: str            # dotted module name, e.g. pyspike.cython.python_backend
@@ -231,7 +287,22 @@ class Repo:
                                for x in free)
                     if same:
                         imported[local] = h
-            normalize.normalize_module(m.tree, imported)
+            # the normal form of a module depends on its source, the helpers it imports and the repository-wide
+            # mutators summary: cache it under that key (an accelerator only - rebuilt whenever it is missing)
+            key = hashlib.sha1()
+            key.update(_NORMALIZE_DIGEST.encode())
+            key.update(m.source.encode())
+            key.update(repr(sorted((k, sorted(v)) for k, v in normalize.MUTATORS.items())).encode())
+            key.update(repr(sorted(normalize.KNOWN_FUNCS)).encode())
+            for local in sorted(imported):
+                key.update(local.encode())
+                key.update(ast.dump(imported[local]).encode())
+            cached = _cache_get(key.hexdigest())
+            if cached is not None:
+                m.tree = cached
+            else:
+                normalize.normalize_module(m.tree, imported)
+                _cache_put(key.hexdigest(), m.tree)
             m.functions.clear()
             m.imports.clear()
             self._index(m)
